@@ -372,3 +372,15 @@ package arvados
 //@   calls json.Unmarshal#*: set dec = true
 //@   calls json.Unmarshal#*: set uerr = $r
 //@   ensures result == nil && dst != nil ==> dec && uerr == nil
+
+// IndexMount / Index: thin wrappers - the listing comes from the checked
+// reader (KeepService.index, which refuses a truncated answer) and is passed on
+// with its error.
+//@ func KeepService.url trusted pure
+//@   modifies nothing
+//@ func KeepService.IndexMount property C06
+//@   only calls: KeepService.index KeepService.url
+//@   calls KeepService.index#1: requires $0 == ctx && $1 == c && $2 == KeepService.url(s, "mounts/" + mountUUID + "/blocks?prefix=" + prefix)
+//@ func KeepService.Index property C06
+//@   only calls: KeepService.index KeepService.url
+//@   calls KeepService.index#1: requires $0 == ctx && $1 == c && $2 == KeepService.url(s, "index/" + prefix)
